@@ -72,6 +72,52 @@ def flag_system(rng, system, phys):
     return exp, mode
 
 
+def flag_dict_job(rng, kind):
+    """a directed system: per-environment chstt dictionaries mixing a "default" entry with explicit truthy AND falsy entries
+    (explicit False under "default": True, explicit True under "default": False, a missing key with and without default);
+    the expected flags are written down here by hand"""
+    um, um3, um2 = Fraction(1, 10 ** 6), Fraction(1, 10 ** 18), Fraction(1, 10 ** 12)
+    species = [
+        {"label": "A", "density": 5, "D": 1.0, "chstt": {"default": True, "b": False}},                  # a: True (default), b: False (explicit)
+        {"label": "B", "density": 2, "D": 0.5, "chstt": {"a": True, "default": False}},                  # a: True (explicit), b: False (default)
+        {"label": "C", "density": 1, "D": 0.25, "chstt": {"b": rng.choice([True, 1]), "a": rng.choice([False, 0])}},   # a: False, b: True, no default
+    ]
+    rng.shuffle(species)
+    labels = [sp["label"] for sp in species]
+    flag = {"A": [True, False], "B": [True, False], "C": [False, True]}
+    dens = {"A": 5, "B": 2, "C": 1}
+    dco = {"A": Fraction(1), "B": Fraction(1, 2), "C": Fraction(1, 4)}
+    net = {"environments": ["a", "b"], "species": species,
+           "reactions": [{"eq": "%s -> %s" % (labels[0], labels[1]), "k+": 1.5}, {"eq": "%s + %s -> %s" % (labels[1], labels[2], labels[0]), "k+": 0.3}]}
+    env = [0, 1, 1]
+    if kind == "grid":
+        space = {"type": "grid", "w": 3, "h": 1, "d": 1, "cell_env": env}
+        pspace = {"kind": "grid", "w": 3, "h": 1, "d": 1, "px": False, "py": False, "pz": False}
+    else:
+        space = {"type": "graph", "nodes": [{"environment": e} for e in env], "edges": [{"nodes": [0, 1]}, {"nodes": [2, 1]}]}
+        pspace = {"kind": "graph", "edges": [(0, 1, um2, um), (2, 1, um2, um)]}
+    desc = {"network": net, "space": space}
+    idx = {lab: k for k, lab in enumerate(labels)}
+    def vec(*labs):
+        v = [0, 0, 0]
+        for lab in labs:
+            v[idx[lab]] += 1
+        return v
+    phys = {"ns": 3, "n": 3, "labels": labels, "envs": ["a", "b"],
+            "reacs": [{"sub": vec(labels[0]), "prod": vec(labels[1]), "kf": [Fraction(3, 2)] * 2, "kr": [Fraction(0)] * 2},
+                      {"sub": vec(labels[1], labels[2]), "prod": vec(labels[0]), "kf": [Fraction(3, 10) * um3] * 2, "kr": [Fraction(0)] * 2}],
+            "env": env, "vol": [um3] * 3, "edge": [um] * 3, "D": [[dco[lab] * um2] * 2 for lab in labels],
+            "dens": [[Fraction(dens[lab]) / um3] * 2 for lab in labels], "chem_env": [flag[lab] for lab in labels], "space": pspace}
+    system = L.build_system(desc)
+    exp = L.default_chem_phys(phys)
+    vals = [float(rng.choice([1, 2, 3, 5, 8, 20])) for _ in range(9)]
+    C1.set_state(system, vals, L.DEFAULT_SYS, False)
+    return {"desc": desc, "phys": phys, "info": {"kind": kind, "directed": "flag-dicts"}, "system": system, "x_si": L.state_si(system.state),
+            "chem": exp, "exp_chem": exp, "real_chem": [int(v) for v in system.chemostats], "chem_mode": "keep",
+            "state": {"vals": vals, "units": list(L.DEFAULT_SYS), "as_unitarray": False}, "U": L.rand_sys(rng), "Uscript": L.DEFAULT_SYS,
+            "dt_nat": Fraction(1, 256), "parallel": False, "integer_state": True}
+
+
 def make_job(ctx, rng, kind, size1=False, integer_state=False):
     desc, phys, info = L.gen_system(rng, kind=kind, max_cells=1 if size1 else ctx.n(6, 16), chem_p=0.5, max_order=2 if integer_state else 4,
                                     non_growing=integer_state, min_env=(2 if (size1 and rng.random() < 0.6) else 1))
@@ -471,7 +517,8 @@ def run(ctx):
     C1.out_of_time(ctx)          # start the harness clock
     source_scenarios(ctx)
     nsys = ctx.n(36, 500)
-    jobs = []
+    jobs = [flag_dict_job(rng, "grid"), flag_dict_job(rng, "graph")]
+    ctx.count("directed_flag_dicts", 2)
     for k in range(nsys):
         if C1.out_of_time(ctx, -5 if ctx.tier == "quick" else 0):
             ctx.notes.append("stopped generating after %d systems (time budget)" % k)
